@@ -251,7 +251,9 @@ def apply_op(archive, spec, op, table, obs=True):
         for c in cands:
             table[c[0]] = c
         kw = batch_arrays(spec, cands, op[2] if len(op) > 2 else "nd")
-        cells = cells_of(archive, spec, cands, kw["measures"])
+        # SlidingBoundariesArchive casts every field to the archive's dtype before it routes a solution (it buffers a copy);
+        # the other archives route the measures as given
+        cells = cells_of(archive, spec, cands, np.asarray(kw["measures"], dtype=DT[spec["dtype"]]) if spec["kind"] == "sliding" else kw["measures"])
         try:
             info = archive.add(**kw)
             if not cands and not info:
@@ -274,7 +276,7 @@ def apply_op(archive, spec, op, table, obs=True):
         c = op[1]
         table[c[0]] = c
         kw = single_args(spec, c, op[2] if len(op) > 2 else "nd")
-        cell = int(archive.index_of_single(kw["measures"]))
+        cell = int(archive.index_of_single(np.asarray(kw["measures"], dtype=DT[spec["dtype"]]) if spec["kind"] == "sliding" else kw["measures"]))
         try:
             info = archive.add_single(**kw)
             ent["ret"] = {"status": [int(info["status"])], "value": [F(info["value"])],
